@@ -450,6 +450,7 @@ func TestSim(t *testing.T) {
 		cfg.CloseErr = (uint64(myid)*2654435761)>>13%3 == 0
 		cfg.ErrKind = int((uint64(myid)*2654435761)>>17) % 3 // what a failed write returns
 		cfg.Dest = int((uint64(myid)*2654435761)>>5) % 4     // the properties hold for every destination
+		cfg.BigReq = []int{0, 0, 0, 700, 1300, 1600, 4000, 0}[(uint64(myid)*2654435761)>>25%8] // ... and whatever the size of the request
 		cfg.Raw = cfg.V4 && (uint64(myid)*2654435761)>>21%3 == 0 // ... and on the raw-socket layer as well as on a UDP socket
 		cfg.Log = int((uint64(myid)*2654435761)>>9) % 4 // the properties hold for every client configuration, logging options included
 		synctest.Test(t, func(t *testing.T) {
